@@ -21,6 +21,9 @@ pub fn install_hook() {
             let (mut file, line) = info.location().map(|l| (l.file().to_string(), l.line())).unwrap_or(("?".into(), 0));
             // innermost usvg / resvg function on the stack: tells *which* call site reached a panicking
             // helper of a dependency (several converters unwrap the same tiny-skia constructor)
+            // symbolising the backtrace allocates (debug info): lift the allocation cap of the worker
+            // first, otherwise the refusal path would try to take the backtrace lock we already hold
+            crate::worker::CAP.store(usize::MAX, std::sync::atomic::Ordering::Relaxed);
             let bt = std::backtrace::Backtrace::force_capture().to_string();
             for l in bt.lines() {
                 let t = l.trim();
